@@ -1045,6 +1045,11 @@ impl<'a> Hist<'a> {
             }
             Op::ImportStats { bad, variant } => {
                 let own = self.api.generate_stats_file();
+                if own.len() > 200_000 {
+                    // repeated imports of the own file double it: keep the case lines (the file as decimal bytes) bounded
+                    self.rep.count("skipped:import_stats(own file > 200 kB)");
+                    return;
+                }
                 // the file handed over: this linter's own, or (variant 3) that of another linter
                 let file = if *variant == 3 {
                     let d = wd_of(self.dialect);
